@@ -191,7 +191,7 @@ def serde_attrs(path):
     return out
 
 
-def run(ck):
+def _run_own(ck):
     facts = ck.facts
     ck.decided('D1 field provenance agrees between writer and reader: type, phase, coordinates (through Coord::new / coord() / qubit() / row()), input/output order through an ORDERED map',
                'D2 Hadamard-edge marker: the writer emits typ = H with is_edge = true plus two plain edges to it; the reader recognises exactly that, re-fuses with a smart Hadamard edge and rejects a marker without two neighbours',
@@ -323,3 +323,8 @@ def run(ck):
     fx = fixture()
     w2, m2, g2 = scalar_markers(fx['fns']['json::enc'], fx['fns']['json::dec'])
     ck.control('R-MARKER flags a neutral marker the reader does not treat as neutral', m2 is True)
+
+
+def run(ck, **kw):
+    _run_own(ck)
+    ck.include('C09', 'the decoder rebuilds the graph with named vertex insertion and edge insertion of the back ends (hash_graph.rs is anchored here too)')
